@@ -244,6 +244,11 @@ def gen_pil(rng, big=False):
 
 
 class RescueSuite(Suite):
+    has_py_property = True
+
+    def py_property(self, case, out):
+        return property_violation(case, out)
+
     name = "merge_with_rescued_protein_groups"
     imports = ("From PGF Require Import Base.Prelude Model.Results Model.ProteinGroups Model.Grouping Model.Scoring "
                "Model.Rescue Harness.H04.")
